@@ -1,5 +1,6 @@
 #include "lsim.h"
 #include "harness_scope.h"
+#include <ctype.h>
 #include <stdarg.h>
 #include <stdio.h>
 #include <stdlib.h>
@@ -8,6 +9,7 @@
 #include <sstream>
 
 RunOut *g_out = nullptr;
+bool g_thorough = false;
 std::vector<std::pair<string, string>> g_known;
 
 const char *opkind_name[] = {"put", "del", "write", "get", "has", "snap", "release", "iter_new", "iter_op", "iter_free", "flush",
@@ -101,7 +103,7 @@ Config random_config(Rng &r) {
   static const long rl[] = {20, 250, 1024, 5000};
   c.wbs = r.pick(wbs); c.mfs = r.chance(0.8) ? (1 << 20) : (2 << 20); c.block = r.pick(blk); c.restart = r.pick(ri);
   c.comp = (int)r.below(2); c.filter = (int)r.below(3); c.cache = (int)r.below(3); c.mof = r.chance(0.3) ? 74 : 1000;
-  c.mmap = (int)r.below(2); c.reuse = (int)r.below(2); c.paranoid = (int)r.below(2); c.cmp = r.chance(0.6) ? 0 : (int)r.range(1, 2);
+  c.mmap = (int)r.below(2); c.reuse = (int)r.below(2); c.paranoid = (int)r.below(2); c.cmp = r.chance(0.6) ? 0 : (int)r.range(1, 3);
   c.verify = (int)r.below(2); c.fillc = r.chance(0.8); c.rlimit = r.pick(rl);
   return c;
 }
@@ -275,6 +277,13 @@ int KeyCmp::cmp(const string &a, const string &b) const {
     case 0: r = a.compare(b); break;
     case 1: r = -a.compare(b); break;
     case 2: r = a.size() < b.size() ? -1 : a.size() > b.size() ? 1 : a.compare(b); break;
+    case 3: {
+      size_t n = a.size() < b.size() ? a.size() : b.size();
+      r = 0;
+      for (size_t i = 0; i < n && r == 0; i++) { int x = tolower((unsigned char)a[i]), y = tolower((unsigned char)b[i]); r = x - y; }
+      if (r == 0) r = a.size() < b.size() ? -1 : a.size() > b.size() ? 1 : 0;
+      break;
+    }
   }
   return r < 0 ? -1 : r > 0 ? 1 : 0;
 }
@@ -289,9 +298,16 @@ static int c_lenfirst(const ldb_comparator_t *, const ldb_slice_t *x, const ldb_
   int r = x->size ? memcmp(x->data, y->data, x->size) : 0;
   return r < 0 ? -1 : r > 0 ? 1 : 0;
 }
+static int c_caseless(const ldb_comparator_t *, const ldb_slice_t *x, const ldb_slice_t *y) {
+  size_t n = x->size < y->size ? x->size : y->size;
+  const unsigned char *a = (const unsigned char *)x->data, *b = (const unsigned char *)y->data;
+  for (size_t i = 0; i < n; i++) { int d = tolower(a[i]) - tolower(b[i]); if (d) return d < 0 ? -1 : 1; }
+  return x->size < y->size ? -1 : x->size > y->size ? 1 : 0;
+}
 static ldb_comparator_t g_cmp_rev = ldb_comparator("sim.Reverse", c_reverse, NULL);
 static ldb_comparator_t g_cmp_len = ldb_comparator("sim.LengthFirst", c_lenfirst, NULL);
-const ldb_comparator_t *lcdb_comparator(int type) { return type == 1 ? &g_cmp_rev : type == 2 ? &g_cmp_len : NULL; }
+static ldb_comparator_t g_cmp_ci = ldb_comparator("sim.CaseInsensitive", c_caseless, NULL);
+const ldb_comparator_t *lcdb_comparator(int type) { return type == 1 ? &g_cmp_rev : type == 2 ? &g_cmp_len : type == 3 ? &g_cmp_ci : NULL; }
 
 // ------------------------------------------------------------------ options / logger
 static void logv(void *, const char *fmt, va_list ap) {
@@ -318,7 +334,8 @@ void DbOptions::set(const Config &c, bool create) {
   o.max_open_files = c.mof; o.use_mmap = c.mmap; o.reuse_logs = c.reuse; o.paranoid_checks = c.paranoid;
   o.comparator = lcdb_comparator(c.cmp);
   if (bloom) { ldb_bloom_destroy(bloom); bloom = nullptr; }
-  if (c.filter == 1) o.filter_policy = ldb_bloom_default;
+  if (c.cmp == 3) o.filter_policy = NULL; // a bytewise bloom filter is not compatible with a comparator that equates different byte strings
+  else if (c.filter == 1) o.filter_policy = ldb_bloom_default;
   else if (c.filter == 2) { bloom = ldb_bloom_create(2); o.filter_policy = bloom; }
   else o.filter_policy = NULL;
   if (cache) { ldb_lru_destroy(cache); cache = nullptr; }
